@@ -427,6 +427,8 @@ class Program:
                     return recv.get(*[f(a) for a in node.args])
                 raise CannotFold(f"get on non-dict: {unparse(node)[:60]}")
             cname = unparse(fn)
+            if env is not None and isinstance(fn, ast.Name) and callable(env.get(fn.id)) and env.get("__strict__") is not None:
+                return env[fn.id](*[f(a) for a in node.args], **{k.arg: f(k.value) for k in node.keywords if k.arg})          # a rule-supplied callable bound to a local
             if env is not None and cname in env.get("__stubs__", {}):
                 return env["__stubs__"][cname](f, node)          # an abstract callee supplied by the rule (gets the folder and the call)
             if cname == "len" and len(node.args) == 1:
